@@ -137,6 +137,7 @@ def task(job):
         for _ in range(nvals):
             vals.append(tuple(random_value(rng, t) for t in arg_t))
         share = {}
+        all_readings = {}
         for vi, v in enumerate(vals):
             try:
                 s = qf.encode_input(*v)
@@ -184,16 +185,33 @@ def task(job):
                         out["problems"].append(f"decode_output of the list reading {keep} gave {d1!r} then {d2!r}, the string reading gave {dec!r}")
                 except Exception as e:
                     out["problems"].append(f"decode_output of a list reading raised {e!r}")
-            # decode_counts aggregates by decoded value
-            if vi == 0 and dv is not None:
+            # decode_counts aggregates by decoded value (every reading on its own ...)
+            if dv is not None:
                 try:
                     cnt = qf.decode_counts({reading: 3})
                     if list(cnt.values()) != [3] or not val_equal(ret_t, list(cnt.keys())[0], dec):
-                        out["problems"].append(f"decode_counts({{{reading!r}: 3}}) = {cnt!r}")
+                        out["problems"].append(f"inputs {v!r}: decode_counts({{{reading!r}: 3}}) = {cnt!r}, decode_output gives {dec!r}")
                 except Exception as e:
                     out["problems"].append(f"decode_counts raised {e!r}")
+                all_readings.setdefault(reading, dec)
             out["cases"].append(dict(vals=[val_to_coq(t, x) for t, x in zip(arg_t, v)], enc=s, reading=reading, dec=dv,
                                      repr=repr(v)))
+        # ... and all distinct readings in one counts dict: the multiset of decoded values must be the one of decode_output
+        if len(all_readings) >= 2:
+            try:
+                counts = dict((r, 2 + i) for i, r in enumerate(all_readings))
+                cnt = qf.decode_counts(counts)
+                want = {}
+                for i, (r, d) in enumerate(all_readings.items()):
+                    k = repr(_plain(ret_t, d))
+                    want[k] = want.get(k, 0) + 2 + i
+                got = {}
+                for k, c in cnt.items():
+                    got[repr(_plain(ret_t, k))] = got.get(repr(_plain(ret_t, k)), 0) + c
+                if got != want:
+                    out["problems"].append(f"decode_counts({counts!r}) = {cnt!r}: decoded value counts {got!r}, expected {want!r}")
+            except Exception as e:
+                out["problems"].append(f"decode_counts of several readings raised {e!r}")
         return out
     except progs._Timeout:
         return dict(status="timeout")
@@ -236,7 +254,14 @@ def run(tier, seed):
              ("wide", "def test(a: Qint[8], b: Qint[4]) -> Qint[12]:\n    return a + b"),
              ("mixed-width", "def test(a: Qint[2], b: Qint[4], c: Qint[2]) -> Qint[4]:\n    return a + b + c"),
              ("return-name", "def test(a: Tuple[Qint[2], bool]) -> Tuple[Qint[2], bool]:\n    return a"),
-             ("return-name", "def test(a: Tuple[bool, bool]) -> Tuple[bool, bool]:\n    return a")]
+             ("return-name", "def test(a: Tuple[bool, bool]) -> Tuple[bool, bool]:\n    return a"),
+             # return bits that share qubits / constants: the return width reaches (or exceeds) the number of qubits
+             ("shared-bits", "def test(a: bool) -> Qint[4]:\n    return 5 if a else 10"),
+             ("shared-bits", "def test(a: bool) -> Tuple[bool, bool, bool]:\n    return (a, True, True)"),
+             ("shared-bits", "def test(a: bool, b: bool) -> Tuple[bool, bool, bool, bool]:\n    return (a, b, a, not b)"),
+             ("shared-bits", "def test(a: Qint[2]) -> Tuple[Qint[2], Qint[2], bool]:\n    return (a, a, a[0])"),
+             ("shared-bits", "def test(a: bool) -> Qint[8]:\n    return 170 if a else 85"),
+             ("shared-bits", "def test(a: bool) -> Tuple[bool, bool]:\n    return (a, a)")]
     nvals = 24 if tier == "quick" else 128
     rebind = [("rebind-fast", "def test(a: bool, b: bool) -> bool:\n    a = a and b\n    return a"),
               ("rebind-fast", "def test(a: Qint[2], b: Qint[2]) -> Qint[2]:\n    a = a + b\n    return a"),
